@@ -4,8 +4,7 @@
    Spec/Layouts.v applied to the payload bits: every integer, flag and identifier is the slice
    at its specified offset and width (so it cannot depend on any neighbouring field), and
    [C04_field_roundtrip] says that a value encoded at a position between arbitrary
-   neighbours is read back exactly.  (Types 5, 15 and 24: see C04_partial note in DESIGN.md
-   until their layout theorems land.) *)
+   neighbours is read back exactly.  Type 15 is proved for its three specification-legal forms (88, 110, 160 bits). *)
 From Ais Require Import Model.Base Model.Enums Model.Fields Model.Messages Model.Unarmor Model.Sentence
   Spec.Layouts Proofs.Bits Proofs.Reads Proofs.Layouts Proofs.Dispatch Proofs.MsgLevel.
 From Coq Require Import Lia.
@@ -140,6 +139,31 @@ Theorem C04_type14 :
   parse_bits c q bs = Ok (SafetyRelatedBroadcastMessage (safety_broadcast_of bs)).
 Proof. intros c q bs Ht Hl Hc. pose proof (msg_type14 c q bs Ht) as H. unfold msg_text in H. rewrite Hc in H. destruct (Nat.leb_spec (40 + 6) (length bs)); [exact H|lia]. Qed.
 Print Assumptions C04_type14.
+
+Theorem C04_type5 :
+  forall c q bs, sl bs 0 6 = 5 -> (302 <= length bs)%nat ->
+  parse_bits c q bs = Ok (StaticAndVoyageRelatedData (static_voyage_of bs)).
+Proof. intros c q bs Ht Hl. pose proof (msg_type5 c q bs Ht) as H. unfold msg_fixed in H. destruct (Nat.leb_spec 302 (length bs)); [exact H|lia]. Qed.
+Print Assumptions C04_type5.
+
+Theorem C04_type24 :
+  forall c q bs, sl bs 0 6 = 24 -> (40 <= length bs)%nat -> (static_data_min bs <= length bs)%nat ->
+  parse_bits c q bs = Ok (StaticDataReport (static_data_of bs)).
+Proof. intros c q bs Ht H40 Hl. pose proof (msg_type24 c q bs Ht H40) as H. destruct (Nat.leb_spec (static_data_min bs) (length bs)); [exact H|lia]. Qed.
+Print Assumptions C04_type24.
+
+Theorem C04_type15_one_request :
+  forall c q bs, sl bs 0 6 = 15 -> length bs = 88%nat -> parse_bits c q bs = Ok (Interrogation (interrogation_88 bs)).
+Proof. exact msg_type15_88. Qed.
+Print Assumptions C04_type15_one_request.
+Theorem C04_type15_two_requests :
+  forall c q bs, sl bs 0 6 = 15 -> length bs = 112%nat -> parse_bits c q bs = Ok (Interrogation (interrogation_110 bs)).
+Proof. exact msg_type15_110. Qed.
+Print Assumptions C04_type15_two_requests.
+Theorem C04_type15_two_stations :
+  forall c q bs, sl bs 0 6 = 15 -> length bs = 160%nat -> parse_bits c q bs = Ok (Interrogation (interrogation_160 bs)).
+Proof. exact msg_type15_160. Qed.
+Print Assumptions C04_type15_two_stations.
 
 (* the hypotheses are met by a real message: the type-4 payload of the repo's README sentence *)
 Example C04_nonvacuous :
